@@ -29,10 +29,10 @@
 #include <sys/syscall.h>
 
 #define MAXT 4096
-typedef struct { pid_t tid; int in_sys; int seen_stop; int counted; char line[400]; } T;
+typedef struct { pid_t tid; int in_sys; int seen_stop; int counted; int failing; char line[400]; } T;
 static T tt[MAXT]; static int nt;
 static int mode_fs = 1, trace = 0, stdout_is_file = 0;
-static long K = 0, count = 0;
+static long K = 0, count = 0, F = 0, failed_call = 0;
 
 static const struct { int nr; const char* n; } NAMES[] = {
  {0,"read"},{1,"write"},{2,"open"},{3,"close"},{4,"stat"},{5,"fstat"},{6,"lstat"},{8,"lseek"},{9,"mmap"},{10,"mprotect"},{11,"munmap"},{12,"brk"},
@@ -102,6 +102,7 @@ int main(int argc, char** argv) {
         if (!strcmp(argv[i], "--")) { i++; break; }
         else if (!strcmp(argv[i], "--mode") && i + 1 < argc) mode_fs = !strcmp(argv[++i], "fs");
         else if (!strcmp(argv[i], "--kill") && i + 1 < argc) K = atol(argv[++i]);
+        else if (!strcmp(argv[i], "--fail") && i + 1 < argc) F = atol(argv[++i]);      /* the F-th counted call, if it writes data, fails with ENOSPC; the run goes on */
         else if (!strcmp(argv[i], "--count-only")) count_only = 1;
         else if (!strcmp(argv[i], "--trace")) trace = 1;
         else if (!strcmp(argv[i], "--cwd") && i + 1 < argc) cwd = argv[++i];
@@ -162,11 +163,18 @@ int main(int argc, char** argv) {
                         if (fl) snprintf(t->line + n, sizeof t->line - n, " flags=0x%lx", fl);
                         if (r.orig_rax == SYS_exit || r.orig_rax == SYS_exit_group) { fprintf(stderr, "%s ret=-\n", t->line); t->line[0] = 0; }
                     }
+                    if (F > 0 && count == F) {                          /* make the F-th call fail instead of executing it (data-writing calls only) */
+                        long nr = (long)r.orig_rax;
+                        if (nr == SYS_write || nr == SYS_pwrite64 || nr == SYS_writev || nr == SYS_pwritev || nr == 328) { r.orig_rax = (unsigned long)-1; ptrace(PTRACE_SETREGS, tid, 0, &r); t->failing = 1; failed_call = nr; }
+                    }
                     if (K > 0 && count == K) {                          /* kill before the K-th call executes */
                         r.orig_rax = (unsigned long)-1; ptrace(PTRACE_SETREGS, tid, 0, &r);
                         killed = 1; kill_all(); continue;
                     }
                 }
+            } else if (!t->in_sys && t->failing) {
+                t->failing = 0; r.rax = (unsigned long)-ENOSPC; ptrace(PTRACE_SETREGS, tid, 0, &r);
+                if (t->line[0]) { fprintf(stderr, "%s ret=-ENOSPC(injected)\n", t->line); t->line[0] = 0; }
             } else if (!t->in_sys && t->line[0]) {
                 fprintf(stderr, "%s ret=%ld\n", t->line, (long)r.rax); t->line[0] = 0;
             }
@@ -187,6 +195,7 @@ int main(int argc, char** argv) {
     }
     fflush(stderr);
     if (killed) { printf("VKILL killed_at=%ld\n", K); return 137; }
+    if (F > 0) { printf("VKILL exited status=%d total=%ld failed_call=%ld\n", root_status, count, failed_call); return root_status < 0 ? 2 : 0; }
     if (K == 0) printf("VKILL total=%ld status=%d\n", count, root_status);
     else printf("VKILL exited status=%d total=%ld\n", root_status, count);
     return root_status < 0 ? 2 : root_status;
